@@ -263,6 +263,12 @@ def run(ctx):
             (4096, 4095, 8192), (8192, 4095, 8192)]
     stream_kinds = ["random", "random", "dense", "dense", "zeros", "ff", "periodic", "sparse"]
     ngroups = 450 if thorough else 44
+    if not r["ok"] and not ctx.replay:
+        # an obligation no longer checks: widen the search for a concrete failing input
+        # (streams well beyond any plausible read-buffer size, more groups)
+        ngroups = max(ngroups, 120)
+        maxlen = max(maxlen, 200 * 1024)
+        good = good + [(8192, 4096, 16384)] * 6
     cases = []      # dicts: line, group key, params, data, kind
     rabs = {}
     def rab_for(poly):
@@ -300,6 +306,8 @@ def run(ctx):
         data = gen_stream(rng, sk_, n, rab_for(poly), avg, max(mn, 1), mx)
         kinds = rng.sample(SCHED_KINDS, nsch)
         if "full" not in kinds and rng.random() < 0.5: kinds[0] = "full"
+        if not any(k in ("one_int", "mixed", "buf") for k in kinds):   # a short read followed by Interrupted
+            kinds[-1] = rng.choice(["one_int", "mixed", "buf"])
         for ki, sk in enumerate(kinds):
             cases.append({"line": rline(poly, avg, mn, mx, rng.choice([0, n, 10 ** 9, max(n - 1, 0), n // 2]), gen_sched(rng, sk, n), data, ki == 0),
                           "group": "R%d" % g, "rabin": (poly, avg, mn, mx), "data": data, "sk": sk, "stream": sk_})
